@@ -66,7 +66,7 @@ def part_spec(case):
     objs.append({"k": "ks", "s": 0, "fifths": 1, "mode": "major"})
     objs.append({"k": "clef", "s": 0, "staff": 1, "sign": "G", "line": 2, "oct": 0})
     kind = content[0]
-    two = kind in ("tie", "slur", "two", "grace")
+    two = kind in ("tie", "slur", "tuplet", "two", "grace")
     for i, (s, e) in enumerate(bounds):
         objs.append({"k": "measure", "s": s, "e": e, "number": i + 1, "name": str(i + 1)})
         if two:
@@ -89,6 +89,11 @@ def part_spec(case):
         b = content[1]
         objs.append({"k": "slur", "a": "n%db" % b, "b": "n%da" % (b + 1)})
         objs.append({"k": "slur", "a": "n%da" % b, "b": "n%db" % b})
+    if kind == "tuplet":
+        # like the slurs: one tuplet bracket over barline b, one inside measure b (both ends are remapped references)
+        b = content[1]
+        objs.append({"k": "tuplet", "a": "n%db" % b, "b": "n%da" % (b + 1), "actual": 3, "normal": 2})
+        objs.append({"k": "tuplet", "a": "n%da" % b, "b": "n%db" % b, "actual": 3, "normal": 2})
     if kind == "grace":
         j = content[1]
         s = bounds[j][0]
@@ -734,6 +739,7 @@ def contents(M):
     for b in range(M - 1):
         yield ["tie", b]
         yield ["slur", b]
+        yield ["tuplet", b]
     for j in range(M):
         yield ["divs", j]
         yield ["ts", j]
@@ -773,7 +779,7 @@ def spaces(tier, seed):
                 if c != ["plain"]:
                     cv.append(dict(M=M, struct=st, content=c, cls=cls))
     sp.append(Space("structures-x-content", cv, True,
-                    "M=%s: every structure x every content variant (two voices, tie / slur over each barline, divisions / "
+                    "M=%s: every structure x every content variant (two voices, tie / slur / tuplet bracket over each barline, divisions / "
                     "time-signature change at each measure, grace chain in each measure)" % ([2, 3] if tier == "quick" else [2, 3, 4, 5])))
     if tier == "quick":
         B = 3
